@@ -512,7 +512,7 @@ pub fn readers_n<S: USet>(e: &mut Eng<S>, i: usize, rounds: usize) {
                             let c = s.clone();
                             &c == s && &c.items() == items
                         }
-                        4 => s.shortcut(It::Iter, 0, "max") == items.iter().cloned().max() && s.shortcut(It::Iter, 0, "last") == items.last().cloned(),
+                        4 => s.shortcut(It::Iter, 0, "max").0 == items.iter().cloned().max() && s.shortcut(It::Iter, 0, "last").0 == items.last().cloned(),
                         _ => {
                             let u = S::union_ref(s, s);
                             let d = S::diff_ref(s, s);
@@ -875,6 +875,28 @@ pub fn fixed<S: USet>(e: &mut Eng<S>, profile: &str) {
         crate::profiles::audit(e, 1, true);
         e.op_collect(2, &[0, 7, 1 << (S::W - 1), 3, 99]);
         crate::profiles::audit(e, 2, true);
+        // tables that are mostly empty: after removing most members, and after a generous hint
+        // (iterators and cloned iterators over sparse tables; `clone` may legitimately compact, its iterators must agree)
+        for (name, stride) in [("bitmap", 37u64), ("plain", 1 << (S::W - 4)), ("dense", 1)] {
+            e.begin(&format!("iter-sparse-{}", name));
+            e.op_new(0);
+            for k in 0..60u64 {
+                e.op_ins(0, S::norm(5 + k.wrapping_mul(stride)));
+            }
+            for k in 0..60u64 {
+                if k % 8 != 3 {
+                    e.op_rem(0, S::norm(5 + k.wrapping_mul(stride)));
+                }
+            }
+            crate::profiles::audit(e, 0, true);
+            e.op_wcm(1, 64, S::norm(5 + 59u64.wrapping_mul(stride)));
+            for k in [3u64, 11, 19, 27] {
+                e.op_ins(1, S::norm(5 + k.wrapping_mul(stride)));
+            }
+            crate::profiles::audit(e, 1, true);
+            e.op_drop(0);
+            e.op_drop(1);
+        }
     }
 }
 
